@@ -43,6 +43,7 @@ def prop(case, res):
 
 
 SUBS = {'c02': prop}
+SWEEP_CHARS = [' ', '\n', '\t', '-', '.', '/', ':', ',', '0', '  ']
 
 
 def strategy(name):
@@ -69,6 +70,16 @@ def shard(a):
             xs.append(pre.lower() + ' ' + v)
         for x in xs:
             prop({'mod': name, 'x': x, 'opts': {}, 'clock': None}, res)
+    # one separator-like character inserted at, or put in place of, every position of a few corpus numbers: an accepted
+    # input that the presentation probe does not class as neutral (it changes the value) still has to map to a fixed point
+    for v in gen.pool(name)[:a.get('nsweep', 10)]:
+        if len(v) > 60:
+            continue
+        for c in SWEEP_CHARS:
+            for i in range(len(v) + 1):
+                prop({'mod': name, 'x': v[:i] + c + v[i:], 'opts': {}, 'clock': None}, res)
+                if i < len(v):
+                    prop({'mod': name, 'x': v[:i] + c + v[i + 1:], 'opts': {}, 'clock': None}, res)
     extra = gen.extra_valid(name)
     if extra is not None:
         # registry / table walking generator: every branch of the table the module consumes (court names, agencies, ...)
